@@ -6,6 +6,7 @@ v4 parsers; offset-table/address-table access; section enumeration formulas incl
 generator cursor discipline (H-YIELD); attribute classification over forms x versions x attributes (E-iii).
 """
 import ast
+from sa.canon import U
 from sa.world import get_world
 from sa import dwconf, layout, expr, paths, streams, dispatch, literals, hrules, owner
 from sa.absint import FuncV, Unknown
@@ -196,11 +197,11 @@ def check_translators(ctx, w):
         ctx.ob('G-SIG', f.construct, 'every parsed entry translated by its kind, in order', len(rets) == 1 and 'entry_translate' in rets[0] and
                'struct_parse(%s,stream)' % st in rets[0] and rets[0].startswith('comp('), got=rets)
     f = w.model.func(RG, 'RangeLists._parse_range_list_from_stream')
-    src = ast.unparse(f.node)
+    src = U(f.node)
     ctx.ob('G-SIG', f.construct, 'v5: every parsed entry translated by its kind, in order',
            'list((entry_translate[entry.entry_type](entry, cu) for entry in struct_parse(self.structs.Dwarf_rnglists_entries, self.stream)))' in src)
     f = w.model.func(RG, 'RangeLists.translate_v5_entry')
-    rets = [ast.unparse(r.value) for r in expr.returns_of(f.node)]
+    rets = [U(r.value) for r in expr.returns_of(f.node)]
     ctx.ob('G-SIG', f.construct, 'translate by kind', rets == ['entry_translate[entry.entry_type](entry, cu)'], got=rets)
 
 
@@ -212,7 +213,7 @@ def check_v4(ctx, w):
         ctx.ob('W-V4', f.construct, 'entry offset = tell() before the pair', tr.get('entry_offset') == [('=', 'tell(stream)')], got=tr.get('entry_offset'))
         ctx.ob('W-V4', f.construct, 'pair of address-sized words', tr.get('begin_offset') == [('=', 'struct_parse(the_Dwarf_target_addr,stream)')] and
                tr.get('end_offset') == [('=', 'struct_parse(the_Dwarf_target_addr,stream)')], got=(tr.get('begin_offset'), tr.get('end_offset')))
-        chains = [n for n in ast.walk(f.node) if isinstance(n, ast.If) and 'begin_offset == 0' in ast.unparse(n.test)]
+        chains = [n for n in ast.walk(f.node) if isinstance(n, ast.If) and 'begin_offset == 0' in U(n.test)]
         ok = len(chains) == 1
         if ok:
             c = chains[0]
@@ -221,7 +222,7 @@ def check_v4(ctx, w):
             nxt = c.orelse[0] if len(c.orelse) == 1 and isinstance(c.orelse[0], ast.If) else None
             ok = ok and nxt is not None and expr.cond_str(nxt.test, env) == expr.spec_cond('begin_offset == _max_addr')
             if ok:
-                base = ast.unparse(nxt.body[-1])
+                base = U(nxt.body[-1])
                 ok = 'BaseAddressEntry(' in base and 'base_address=end_offset' in base
         ctx.ob('W-V4', f.construct, '(0,0) ends; (max address, x) selects base x; else entry', ok,
                msg='list terminator / base-selection sentinel handling differs from DWARF §2.6.2 / §2.17.3')
@@ -281,24 +282,24 @@ def check_enum(ctx, w):
     f = w.model.func(RG, 'RangeLists.iter_CU_range_lists_ex')
     env = expr.FEnv(f.node, params=('cu',), inline=False)
     seeks = [o.t() for o in streams.func_ops(f.node, env) if o.kind in ('seek', 'parse') and o.args and o.args[-1] not in (None,)]
-    src = ast.unparse(f.node)
+    src = U(f.node)
     start_ok = expr.spec_nf('offset_table_offset + (8 if is64 else 4) * offset_count') in [expr.nfs(n, env) for n in ast.walk(f.node) if isinstance(n, ast.BinOp)]
     ctx.ob('I-WIDTH', f.construct, 'lists start after offset_count entries of 8/4 bytes', start_ok,
-           got=[expr.nfs(n, env) for n in ast.walk(f.node) if isinstance(n, ast.BinOp) and 'offset_count' in ast.unparse(n)][:1],
+           got=[expr.nfs(n, env) for n in ast.walk(f.node) if isinstance(n, ast.BinOp) and 'offset_count' in U(n)][:1],
            expected=expr.spec_nf('offset_table_offset + (8 if is64 else 4) * offset_count'),
            msg='offset-table entry size used as a byte multiplier must be 8 (64-bit DWARF) or 4, as in _iter_CUs_in_section')
     end_ok = expr.spec_nf('offset_after_length + unit_length') in [expr.nfs(n, env) for n in ast.walk(f.node) if isinstance(n, ast.BinOp)]
     ctx.ob('E-i', f.construct, 'block ends at offset_after_length + unit_length', end_ok)
     ctx.ob('E-i', f.construct, 'raw v5 lists', 'struct_parse(self.structs.Dwarf_rnglists_entries, stream' in src)
     f = w.model.func(RG, 'RangeLists.iter_range_lists')
-    src = ast.unparse(f.node)
+    src = U(f.node)
     ctx.ob('E-i', f.construct, 'visits the DW_AT_ranges offsets of units of the matching version, sorted',
            "cu_map = {die.attributes['DW_AT_ranges'].value: cu for cu in self._dwarfinfo.iter_CUs() for die in cu.iter_DIEs() "
            "if 'DW_AT_ranges' in die.attributes and (cu['version'] >= 5) == ver5}" in src and 'all_offsets.sort()' in src and
            'yield self.get_range_list_at_offset(offset, cu_map[offset])' in src)
     for mod, cls, hdr, di in ((LL, 'LocationLists', 'Dwarf_loclists_CU_header', 'dwarfinfo'), (RG, 'RangeLists', 'Dwarf_rnglists_CU_header', '_dwarfinfo')):
         f = w.model.func(mod, cls + '.iter_CUs')
-        rets = [ast.unparse(r.value) for r in expr.returns_of(f.node)]
+        rets = [U(r.value) for r in expr.returns_of(f.node)]
         ctx.ob('E-i', f.construct, 'blocks parsed with the section\'s own header struct', rets == ['_iter_CUs_in_section(self.stream, structs, structs.%s)' % hdr], got=rets)
     f = w.model.func(LL, 'LocationLists.iter_location_lists')
     env = expr.FEnv(f.node, inline=False)
@@ -349,7 +350,7 @@ def check_classification(ctx, w):
     ctx.analysed['classification_undefined_cells'] = n_undef
     f = w.model.func(LL, 'LocationParser.parse_from_attribute')
     env = expr.FEnv(f.node, params=('attr', 'dwarf_version', 'die'))
-    rp = [([(expr.cond_str(t, env), pol) for t, pol in c], expr.nfs(r, env)) for c, r, p in paths.returns_with_conds(f.node)]
+    rp = [([expr.CP(expr.cond_str(t, env), pol) for t, pol in c], expr.nfs(r, env)) for c, r, p in paths.returns_with_conds(f.node)]
     want = [([('T(attribute_has_location(self,attr,dwarf_version))', True), ('T(_attribute_has_loc_expr(self,attr,dwarf_version))', True)], 'LocationExpr(value)'),
             ([('T(attribute_has_location(self,attr,dwarf_version))', True), ('T(_attribute_has_loc_expr(self,attr,dwarf_version))', False),
               ('T(_attribute_has_loc_list(self,attr,dwarf_version))', True)], 'get_location_list_at_offset(location_lists,value,die)')]
